@@ -20,6 +20,7 @@ func init() {
 		Explanation: "Structural rules over the DHCPv4 lease table of dhcpd.v4Server (fields leases, hostsIndex, ipIndex, leasedOffsets and the fields of registered leases). " +
 			"Decided: (D1) persist-after-mutate: starting from every instruction that mutates the table or a lease, every path to a successful return of the outermost API function or message handler executes the database-store notification after the mutation (directly, by a defer, or in every caller); (D2) a lease is registered once: no value that comes from the allocator or from a table lookup is passed to addLease again; " +
 			"(D3) sibling agreement: every function that changes the lease list also updates the IP index, the hostname index and the pool-offset bitset; (D4) the table is touched only under leasesLock and the database-store path reads it under the lock; (D5) static-lease insertion is reached only after the validation calls succeeded; the store callback writes through the atomic writer (C14). " +
+			"(D6) conflict removal: the function that makes room for a new lease (rmDynamicLease) can remove more than one lease per call — a lease can conflict with one existing lease by hardware address and with another by IP address — i.e. its removal site lies in a loop over the lease list or there are at least two removal sites, and every caller registers the new lease only after it succeeded; (D7) the hostname index follows a rename: when commitLease changes a lease's hostname the old name's index entry is deleted (at most guarded by 'still points at this lease') and the new name is indexed. " +
 			"Not decided: uniqueness of addresses/clients over message histories, pool exhaustion, expiry arithmetic, restart equivalence beyond 'stored after each change'.",
 		RuleText: "Mutations are SSA stores/map updates/deletes/bitset sets on the four table fields and stores to dhcpsvc.Lease fields; obligations propagate from callee to callers until a function without module callers is reached.",
 		Assumptions: []string{
@@ -145,6 +146,8 @@ func runC10(c *Ctx) {
 	a.siblings()
 	a.validation()
 	a.storePath()
+	a.conflictRemoval()
+	a.hostnameIndex()
 }
 
 // isNotifyStore: a dynamic call of the `notify` callback field with the
@@ -743,4 +746,222 @@ func (a *c10) storePath() {
 		}
 	}
 	r.Floor("C10-D1", "notify-callback-stores", nStores, 2)
+}
+
+// conflictRemoval: D6.
+func (a *c10) conflictRemoval() {
+	p, r := a.P, a.R
+	fn := p.Fn("(*dhcpd.v4Server).rmDynamicLease")
+	if fn == nil {
+		r.Undecided("C10-D6", "rmDynamicLease", "-", "anchor not found")
+		return
+	}
+	hdrs := loopHeaders(fn)
+	inLoop := func(b *ssa.BasicBlock) bool {
+		for _, h := range hdrs {
+			if !h.Dominates(b) {
+				continue
+			}
+			if found, _, _ := core.Reach(core.Query{From: []core.Point{{Block: b, Idx: 0}}, Target: func(in ssa.Instruction) bool { return in.Block() == h }}); found {
+				return true
+			}
+		}
+		return false
+	}
+	nSites, nLoop := 0, 0
+	for _, call := range core.Calls(fn) {
+		callee := call.Common.StaticCallee()
+		if callee == nil || !a.mutatesField(callee, "leases", map[*ssa.Function]bool{}) {
+			continue
+		}
+		nSites++
+		if inLoop(call.Instr.Block()) {
+			nLoop++
+		}
+	}
+	for _, in := range a.mutInstr[fn] {
+		if d := c10Mutation(in); strings.Contains(d, "leases") {
+			nSites++
+			if inLoop(in.Block()) {
+				nLoop++
+			}
+		}
+	}
+	r.Check(nLoop > 0 || nSites >= 2, "C10-D6", "conflict-removal-covers-both-conflicts", p.FnPos(fn),
+		fmt.Sprintf("rmDynamicLease removes leases inside a scan of the whole list (%d removal site(s), %d in a loop): the lease holding the address and the client's own other lease are both displaced", nSites, nLoop),
+		fmt.Sprintf("rmDynamicLease can remove at most one lease per call (%d removal site(s), none in a loop), but a new lease can conflict with one lease by hardware address and with another by IP address: one of them stays in the table", nSites))
+
+	// callers register the new lease only after the removal succeeded
+	for _, caller := range a.fns {
+		var rm []core.Call
+		for _, call := range core.Calls(caller) {
+			if call.Common.StaticCallee() == fn {
+				rm = append(rm, call)
+			}
+		}
+		adds := core.CallsTo(caller, "(*dhcpd.v4Server).addLease")
+		if len(rm) == 0 || len(adds) == 0 {
+			continue
+		}
+		isAdd := core.IsCallTo(false, "(*dhcpd.v4Server).addLease")
+		isRm := func(in ssa.Instruction) bool {
+			c, ok := in.(*ssa.Call)
+			return ok && c.Common().StaticCallee() == fn
+		}
+		found, tr, _ := core.Reach(core.Query{From: []core.Point{core.Entry(caller)}, Target: isAdd, Avoid: isRm})
+		var det []string
+		if found {
+			det = append(det, p.TraceString(tr))
+		}
+		r.Check(!found, "C10-D6", "conflicts-removed-before-registration:"+core.FuncKey(caller), p.FnPos(caller),
+			"the new lease is registered only after the conflicting dynamic leases were removed", "the new lease can be registered without removing the conflicting dynamic leases", det...)
+	}
+}
+
+// mutatesField: fn (or a static callee) changes the given table field.
+func (a *c10) mutatesField(fn *ssa.Function, field string, seen map[*ssa.Function]bool) bool {
+	if fn == nil || seen[fn] || fn.Blocks == nil {
+		return false
+	}
+	seen[fn] = true
+	for _, in := range a.mutInstr[fn] {
+		if strings.Contains(c10Mutation(in), field) {
+			return true
+		}
+	}
+	for _, call := range core.Calls(fn) {
+		if sc := call.Common.StaticCallee(); sc != nil && core.PkgOf(sc) == "dhcpd" && a.mutatesField(sc, field, seen) {
+			return true
+		}
+	}
+	return false
+}
+
+// hostnameIndex: D7.
+func (a *c10) hostnameIndex() {
+	p, r := a.P, a.R
+	fn := p.Fn("(*dhcpd.v4Server).commitLease")
+	if fn == nil || len(fn.Params) < 2 {
+		r.Undecided("C10-D7", "commitLease", "-", "anchor not found")
+		return
+	}
+	lease := fn.Params[1]
+	isHostLoad := func(v ssa.Value) bool {
+		fr, base, ok := core.LoadedField(v)
+		return ok && fr.Type == "dhcpsvc.Lease" && fr.Field == "Hostname" && base == ssa.Value(lease)
+	}
+	// prev: the hostname loaded before any store to it
+	var prev ssa.Value
+	for _, in := range fn.Blocks[0].Instrs {
+		if st, ok := in.(*ssa.Store); ok {
+			if fr, ok := core.FieldOfAddr(st.Addr); ok && fr.Field == "Hostname" {
+				break
+			}
+		}
+		if v, ok := in.(ssa.Value); ok && isHostLoad(v) {
+			prev = v
+			break
+		}
+	}
+	if prev == nil {
+		r.Undecided("C10-D7", "commitLease:previous-hostname", p.FnPos(fn), "the previous hostname is not read at entry")
+		return
+	}
+	changed, n := core.CondEdges(fn, func(at core.Atom) (bool, bool) {
+		if at.Op != token.EQL && at.Op != token.NEQ {
+			return false, false
+		}
+		if (at.Base == prev && isHostLoad(at.Other)) || (at.Other == prev && isHostLoad(at.Base)) {
+			return true, at.Op == token.NEQ
+		}
+		return false, false
+	})
+	// edges on which nothing has to be deleted: prev == "", the entry no longer points at this lease, the entry is absent
+	escape, _ := core.CondEdges(fn, func(at core.Atom) (bool, bool) {
+		if (at.Op == token.EQL || at.Op == token.NEQ) && at.Base == prev {
+			if s, ok := core.ConstString(at.Other); ok && s == "" {
+				return true, at.Op == token.EQL
+			}
+		}
+		isLookupPrev := func(v ssa.Value) (int, bool) {
+			e, ok := v.(*ssa.Extract)
+			if !ok {
+				return 0, false
+			}
+			lk, ok := e.Tuple.(*ssa.Lookup)
+			if !ok || lk.Index != prev {
+				return 0, false
+			}
+			if f, _, ok := core.LoadedField(lk.X); ok && f.Field == "hostsIndex" {
+				return e.Index, true
+			}
+			return 0, false
+		}
+		if at.Op == token.EQL || at.Op == token.NEQ {
+			if i, ok := isLookupPrev(at.Base); ok && i == 0 && at.Other == ssa.Value(lease) {
+				return true, at.Op == token.NEQ
+			}
+			if i, ok := isLookupPrev(at.Other); ok && i == 0 && at.Base == ssa.Value(lease) {
+				return true, at.Op == token.NEQ
+			}
+		}
+		if at.Op == token.ILLEGAL {
+			if i, ok := isLookupPrev(at.Base); ok && i == 1 {
+				return true, false
+			}
+		}
+		return false, false
+	})
+	isDelPrev := func(in ssa.Instruction) bool {
+		c, ok := in.(*ssa.Call)
+		if !ok {
+			return false
+		}
+		bi, ok := c.Call.Value.(*ssa.Builtin)
+		if !ok || bi.Name() != "delete" || len(c.Call.Args) != 2 || c.Call.Args[1] != prev {
+			return false
+		}
+		f, _, ok := core.LoadedField(c.Call.Args[0])
+		return ok && f.Field == "hostsIndex"
+	}
+	if n == 0 {
+		r.Fail("C10-D7", "rename-drops-old-name", p.FnPos(fn), "commitLease no longer compares the previous hostname with the new one: the old name's index entry cannot be dropped on a rename")
+	} else {
+		bad := false
+		var det []string
+		for e := range changed {
+			from := e.From.Succs[e.Succ]
+			found, tr, _ := core.Reach(core.Query{From: []core.Point{{Block: from, Idx: 0}}, Target: core.IsReturn, Avoid: isDelPrev, AvoidEdges: escape})
+			if found {
+				bad = true
+				det = append(det, "path from the rename edge to the return without the delete: "+p.TraceString(tr))
+			}
+		}
+		r.Check(!bad, "C10-D7", "rename-drops-old-name", p.FnPos(fn),
+			"when the hostname of a lease changes, the index entry of the old name is deleted (unless it is empty or no longer this lease's)",
+			"the hostname of a lease can change while the old name stays in the hostname index: DNS keeps answering the old name, and only until the next restart", det...)
+	}
+	// the new name is indexed with this lease
+	isSetNew := func(in ssa.Instruction) bool {
+		mu, ok := in.(*ssa.MapUpdate)
+		if !ok || mu.Value != ssa.Value(lease) || !isHostLoad(mu.Key) {
+			return false
+		}
+		f, _, ok := core.LoadedField(mu.Map)
+		return ok && f.Field == "hostsIndex"
+	}
+	emptyNew, _ := core.CondEdges(fn, func(at core.Atom) (bool, bool) {
+		if (at.Op == token.EQL || at.Op == token.NEQ) && isHostLoad(at.Base) && at.Base != prev {
+			if s, ok := core.ConstString(at.Other); ok && s == "" {
+				return true, at.Op == token.EQL
+			}
+		}
+		return false, false
+	})
+	found, tr, _ := core.Reach(core.Query{From: []core.Point{core.Entry(fn)}, Target: core.IsReturn, Avoid: isSetNew, AvoidEdges: emptyNew})
+	var det []string
+	if found {
+		det = append(det, p.TraceString(tr))
+	}
+	r.Check(!found, "C10-D7", "new-name-indexed", p.FnPos(fn), "a committed lease with a hostname is always entered into the hostname index under that name", "a committed lease can keep a hostname that is not in the hostname index", det...)
 }
